@@ -35,6 +35,10 @@ def _scenario(ob):
     tr = ' '.join(ob.get('trace', []))
     if 'enqueue_fn:refused' in tr and 'var-dec' in ob['site']:
         return {'name': 'refuse_livelock'}
+    if '/block#' in ob['site']:
+        return {'name': 'refuse_orphan'}
+    if 'first_enqueue' in ob['site'] and 'not in _closed' in ob['text']:
+        return {'name': 'dead_before_run_noretry'}
     if 'handle_new_result' in ob['text'] or 'recv:result' in tr:
         m = ob.get('model') or {}
         return {'name': 'late_result', 'extra': max(1, int(m.get('extra_pending', 1)) if isinstance(m.get('extra_pending', 1), int) else 1),
